@@ -84,7 +84,7 @@ func escapeStringForTypeParam(s string) string {
 		case '\\':
 			sb.WriteString("\\\\\\\\\\\\\\\\") // backslash becomes 8 backslashes
 		case '\'':
-			sb.WriteString("\\\\\\\\\\'") // single quote becomes 5 backslashes + quote
+			sb.WriteString("\\\\\\\\\\\\\\'") // single quote becomes 7 backslashes + quote
 		case '\n':
 			sb.WriteString("\\\\\\\\n") // newline becomes \\\\n
 		case '\t':
